@@ -161,7 +161,7 @@ class R:
         return L
 
 
-HDR = ["from cohdl import std, Entity, Port, Bit, BitVector, Unsigned, Signal, Variable", "import cohdl", ""]
+HDR = ["from cohdl import std, Entity, Port, Bit, BitVector, Unsigned, Signal, Variable, Array, Boolean, vhdl", "import cohdl", ""]
 
 
 def render(prog, flavour):
@@ -603,6 +603,16 @@ MISC = {
     "while-true-temp-across-await": (True, ["while True:", "    t = self.a ^ self.b", "    await self.a", "    self.o <<= t"], True),
     "while-cond-continue-temp-across-await": (True, ["while self.a:", "    t = self.a ^ self.b", "    await self.b", "    if self.x[0]:", "        continue",
                                                     "    self.o <<= t"], True),
+    # results of inline VHDL expressions are intermediates as well
+    "inline-vhdl-across-await": (True, ['t = f"{vhdl[Bit]:{self.a!r} or {self.b!r}}"', "await self.a", "self.o <<= t"], True),
+    "inline-vhdl-same-state": (True, ["await self.a", 't = f"{vhdl[Bit]:{self.a!r} or {self.b!r}}"', "self.o <<= t"]),
+    "inline-vhdl-sync": (False, ['t = f"{vhdl[Bit]:{self.a!r} or {self.b!r}}"', "if self.a:", "    self.o <<= t"]),
+    "inline-vhdl-in-loop-across-await": (True, ["while True:", '    t = f"{vhdl[Bit]:{self.a!r} and {self.b!r}}"', "    await self.b", "    self.o <<= t"], True),
+    # array literals whose elements are (redundant) bool casts of boolean intermediates
+    "array-literal-bool-elements": (False, ["flags = Signal[Array[Boolean, 2]]([bool(self.a == self.b), bool(self.a != self.b)])", "self.o <<= flags[self.x[0:0].unsigned]"]),
+    "array-value-bool-elements-in-branch": (False, ["if self.a:", "    flags = std.Value[Array[Boolean, 2]]((bool(self.w[1:0] == self.w[3:2]), bool(self.w[0])))",
+                                                    "    self.o <<= flags[self.x[0:0].unsigned]", "else:", "    self.o <<= False"]),
+    "array-variable-bool-elements": (False, ["flags = Variable[Array[Boolean, 2]]([bool(self.a == self.b), bool(self.b)])", "self.o <<= flags[self.x[0:0].unsigned]"]),
     # a reference to an element selected with a run-time index carries an index intermediate
     "indexed-ref-match-across-await": (True, ["elem = self.w[self.x]", "await self.a", "match elem:", "    case '1':", "        self.o2 <<= 1",
                                              "    case _:", "        self.o2 <<= 2"], True),
